@@ -14,7 +14,7 @@ META = {
     "non-trivial = >= 2 retained steps with >= 2 distinct genotypes",
     "bound": {"quick": "calling: alleles {0,1,2}, P in {2,3}, (chains,steps) in {(1,<=4),(2,2)}; assemble: 2 bi-allelic SNVs P=2 (all 16 ordered genotypes), "
                        "(1,<=3),(2,2); P=3 over 3 haplotypes (1,<=4),(2,2); pedigree individual() on padded mixed-ploidy traces",
-              "thorough": "adds (2,3) traces"},
+              "thorough": "adds (2,3) traces (calling, triploid assemble), (1,4) for the 16 ordered diploid genotypes, multisets of 5..11 steps"},
     "assumptions": ["calling traces are stored sorted by the samplers (posterior()/mode() are given sorted storage); posterior_frequencies and every assemble summary "
                     "are exercised with unsorted storage", "exact ties: any maximiser / any consistent incongruence flag is accepted"],
     "trusted_base": ["collections.Counter"],
@@ -41,7 +41,7 @@ def plan(tier, seed):
             chunks = max(1, min(32, n // 3000))
             for c in range(chunks):
                 jobs.append(("call", P, sh, c, chunks, n // chunks))
-    for sh in [(1, 1), (1, 2), (1, 3), (2, 2)] + ([(2, 3)] if tier == "thorough" else []):
+    for sh in [(1, 1), (1, 2), (1, 3), (2, 2)] + ([(1, 4)] if tier == "thorough" else []):
         n = 16 ** (sh[0] * sh[1])
         chunks = max(1, min(48, n // 1500))
         for c in range(chunks):
